@@ -16,9 +16,11 @@ pub mod w2 {
       relation r5(i64, i64);
       r2(3, 0, 0) <-- r0(2);
       r2(v0, v1, ((*v0) + 1)) <-- r2(0, 3, v0) if ((*v0) != 1), r0(v1) if ((*v0) != 1), if ((*v0) < 6);
-      r2(v0, v1, v2) <-- r5(v0, v1) if ((*v0) < 3), r3(v1, v2) if ((*v2) != (*v1));
-      r5(v0, v2) <-- r1(v0, v1), r1(v1, v2), r5(v2, v3);
-      r2(v1, v3, v0) <-- r5(v0, v1) if ((*v1) < 6), r0(((*v0) + 0)), r1(v2, v3);
+      r3(v0, v1) <-- let v9 = 0, r5(v0, v1), r3(v1, v9);
+      r1(v0, v2) <-- r5(v0, v1), r1(v1, v2), r5(v2, v3);
+      r1(2, 0);
+      r2(v3, v4, ((*v0) + 1)) <-- r0(v0), for v1 in 2..1, r3(v2, ((*v0) + 1)), r5(v3, v4) if ((*v3) != 1), if ((*v0) < 6);
+      r2(v0, 1, 3) <-- if let Some(v0) = Some(1), r1(v1, v2), let v3 = (*v2), if (v0 <= 6);
    }
    pub struct Inst { p: Prog, pool: Option<ascent::rayon::ThreadPool> }
    pub fn make(pool: Option<usize>) -> Box<dyn Driver> {
